@@ -25,6 +25,7 @@ using GEBR_lazy = r::generic_epoch_based<>::with<p::scan_frequency<1>, p::scan<r
 using GEBR_n2 = r::generic_epoch_based<>::with<p::scan_frequency<0>, p::scan<r::scan::n_threads<2>>, p::region_extension<r::region_extension::none>>;
 using GEBR_aband = r::generic_epoch_based<>::with<p::scan_frequency<1>, p::abandon<r::abandon::always>, p::region_extension<r::region_extension::none>>;
 using GEBR_thresh = r::generic_epoch_based<>::with<p::scan_frequency<1>, p::abandon<r::abandon::when_exceeds_threshold<1>>, p::region_extension<r::region_extension::eager>>;
+using GEBR_t0 = r::generic_epoch_based<>::with<p::scan_frequency<1>, p::abandon<r::abandon::when_exceeds_threshold<0>>, p::region_extension<r::region_extension::none>>;   // threshold 0: abandon whatever is left
 using EBR100 = r::epoch_based<>;
 using LFRCtl = r::lock_free_ref_count<>::with<p::thread_local_free_list_size<2>>;
 using QSBR = r::quiescent_state_based;
